@@ -259,6 +259,8 @@ def streams_for(prop, seed, tier, boost=1):
         add('int', G('int').int_stream(n_random=400 * k))
         add('int-extra', genmod.int_extra_stream(G('ix')))
         add('int-memoryview', genmod.int_memoryview_truncations())
+        add('int-call-forms', genmod.int_call_forms_stream())
+        add('int-optimized', G('into').int_stream(n_random=60) + genmod.int_call_forms_stream(), {'env': {'PYTHONOPTIMIZE': '1'}})
         if T:
             add('int-exhaustive', G('x').int_exhaustive())
     elif prop == 'C12':
@@ -291,6 +293,7 @@ def streams_for(prop, seed, tier, boost=1):
     elif prop == 'C13':
         add('hdec', G('hdec').hdec_stream(n_random=400 * k))
         add('hdec-transitions', genmod.huff_transition_catalogue())
+        add('hdec-optimized', genmod.huff_transition_catalogue()[::5], {'env': {'PYTHONOPTIMIZE': '1'}})
         add('huff-alignment', genmod.huff_alignment_catalogue())
         add('hdec-shared-buffer', genmod.hdec_shared_stream(G('hs'), n=80 * k))
         rep = G('hdec2').hdec_stream(n_random=150 * k)
@@ -324,11 +327,14 @@ def streams_for(prop, seed, tier, boost=1):
         add('conn-evict', evict_stream(G('ev'), 8 * k))
         add('enc', G('enc').enc_stream(n_conn=20 * k))
         add('dec', G('dec').dec_stream(n_conn=30 * k, mal=0.2))
+        add('ctor-options', genmod.ctor_options_stream(G('co2')), {'nocorr': True})
+        add('table-optimized', G('tableo').table_stream(n_tables=5 * k), {'env': {'PYTHONOPTIMIZE': '1'}})
         if T:
             add('table-exhaustive', G('x').table_exhaustive())
     elif prop in ('C02',):
         add('deccat', G('deccat').dec_catalogue())
         add('dec-wf', G('dec').dec_stream(n_conn=60 * k, mal=0.0))
+        add('deccat-optimized', G('deccat').dec_catalogue(), {'env': {'PYTHONOPTIMIZE': '1'}})
         add('deccat-debuglog', genmod.with_debug_log(G('deccat').dec_catalogue()))
         add('conn-big-binary', genmod.big_binary_conn_stream(G('bb')))
         add('dec-mixed', G('dec2').dec_stream(n_conn=20 * k, mal=0.3, start_id=3000))
@@ -357,6 +363,7 @@ def streams_for(prop, seed, tier, boost=1):
     elif prop in ('C04', 'C05'):
         add('deccat', G('deccat').dec_catalogue())
         add('dec-mal', G('dec').dec_stream(n_conn=60 * k, mal=0.55))
+        add('deccat-optimized', G('deccat').dec_catalogue(), {'env': {'PYTHONOPTIMIZE': '1'}})
         add('deccat-debuglog', genmod.with_debug_log(G('deccat').dec_catalogue()))
         add('dec-wf', G('dec2').dec_stream(n_conn=20 * k, mal=0.0, start_id=3000))
         add('dec-setters', genmod.dec_setter_stream(G('ds'), n=20 * k))
@@ -385,6 +392,7 @@ def streams_for(prop, seed, tier, boost=1):
     elif prop in ('C07', 'C08'):
         add('deccat', G('deccat').dec_catalogue())
         add('dec-limits', G('dec').dec_stream(n_conn=80 * k, mal=0.15))
+        add('deccat-optimized', G('deccat').dec_catalogue(), {'env': {'PYTHONOPTIMIZE': '1'}})
         add('dec-bounds', bounds_stream(G('b'), 40 * k))
         add('conn-big-binary', genmod.big_binary_conn_stream(G('bb')))
         add('high-index', genmod.high_index_limit_stream())
@@ -426,6 +434,9 @@ def streams_for(prop, seed, tier, boost=1):
             add('never-indexed-utf8', genmod.never_indexed_utf8_stream())
             add('updates-then-never-indexed', genmod.updates_then_never_indexed_stream())
         add('name-index-boundaries', genmod.name_index_boundary_stream())
+        add('enc-failing', genmod.enc_fail_stream(G('ef'), n=12 * k))
+        add('ctor-options', genmod.ctor_options_stream(G('co2')), {'nocorr': True})
+        add('enc-optimized', G('enco').enc_stream(n_conn=10 * k), {'env': {'PYTHONOPTIMIZE': '1'}})
         add('copies', genmod.copy_stream(G('cp')))
         add('direct-add', genmod.eadd_stream())
         add('generator-assigns-size', genmod.eev_stream(G('ev')))
@@ -439,6 +450,8 @@ def streams_for(prop, seed, tier, boost=1):
         add('enccat', G('enccat').enc_catalogue())
         add('enc-sizes', genmod.enc_size_stream(G('es'), n=60 * k))
         add('enc', G('enc').enc_stream(n_conn=30 * k))
+        add('enc-failing', genmod.enc_fail_stream(G('ef'), n=10 * k))
+        add('enc-sizes-optimized', genmod.enc_size_stream(G('eso'), n=10 * k), {'env': {'PYTHONOPTIMIZE': '1'}})
         add('api-forms-conn', genmod.api_forms_conn_stream(G('af'), n=8 * k))
         add('coincidences', genmod.coincidence_stream(G('co')))
         add('call-orders', genmod.call_order_stream())
@@ -449,6 +462,9 @@ def streams_for(prop, seed, tier, boost=1):
         add('dict-and-generators', ops_)
     elif prop in ('C01', 'C10'):
         add('conn', G('conn').conn_stream(n_conn=40 * k))
+        add('enc-failing', genmod.enc_fail_stream(G('ef'), n=10 * k))
+        add('ctor-options', genmod.ctor_options_stream(G('co2')), {'nocorr': True})
+        add('conn-optimized', G('conno').conn_stream(n_conn=8 * k, start_id=900), {'env': {'PYTHONOPTIMIZE': '1'}})
         add('conn-text', G('conntext').conn_text_stream(n_conn=15 * k))
         add('enc-sizes', genmod.enc_size_stream(G('es'), n=25 * k))
         add('split-ambiguity', genmod.split_ambiguity_stream())
@@ -490,6 +506,9 @@ def streams_for(prop, seed, tier, boost=1):
         ops, groups = genmod.dict_dupkey_stream()
         add('dict-and-generators', ops, {'groups': groups})
         add('dict-and-generators-debuglog', genmod.with_debug_log(ops), {'groups': groups})
+        add('dict-subclasses', genmod._dict_kinds(ops), {'groups': groups})
+        ops2, groups2 = G('apidk').api_stream(n=25 * k)
+        add('api-dict-subclasses', genmod._dict_kinds(ops2), {'groups': groups2})
         ops, groups = G('apilog').api_stream(n=25 * k)
         add('api-debuglog', genmod.with_debug_log(ops), {'groups': groups})
         ops, pairs = genmod.utf8_tail_stream()
@@ -508,6 +527,7 @@ def streams_for(prop, seed, tier, boost=1):
         add('both-sensitivities', ops_)
         add('copies', genmod.copy_stream(G('cp')))
         add('cross-encoder-sensitive', genmod.cross_encoder_sensitive_stream())
+        add('ctor-options', genmod.ctor_options_stream(G('co2')), {'nocorr': True})
     return out
 
 
@@ -689,10 +709,12 @@ def load_known():
 def _one_stream(prop, name, ops, ctx, judge, corr):
     J = judges.JUDGES.get(prop)
     t0 = time.time()
-    impl = runner.run_impl(ops)
+    impl = runner.run_impl(ops, extra_env=ctx.get('env'))
+    # constructor-with-options operations are plain constructors to the model and to the judges
+    ops = [re.sub(r'^(enew|dnew|tnew)x\b', r'\1', o) for o in ops]
     t1 = time.time()
     model, note = None, None
-    if corr:
+    if corr and not ctx.get('nocorr'):
         try:
             model = runner.run_model(ops)
         except runner.InfraError as e:
